@@ -240,13 +240,17 @@ class ConvexSpheropolyhedron(Shape3D):
         if np.all(in_polyhedron):
             return in_polyhedron
 
-        # Compute extrusions of the faces
+        # Compute extrusions of the faces. The prisms also reach below their face: they
+        # are only consulted for points above the face plane, and a point that lies on
+        # the face up to rounding must not be lost between the polyhedron test above
+        # and a prism whose lower lid is that same face.
         extruded_faces = []
         for face, normal in zip(self.polyhedron.faces, self.polyhedron.normals):
             base_vertices = self.polyhedron.vertices[face]
+            lowered_vertices = base_vertices - self.radius * normal
             extruded_vertices = base_vertices + self.radius * normal
             extruded_faces.append(
-                ConvexPolyhedron([*base_vertices, *extruded_vertices])
+                ConvexPolyhedron([*lowered_vertices, *extruded_vertices])
             )
 
         # Select the points between the inner polyhedron and extruded space
